@@ -97,3 +97,22 @@ func zzDrain(c *client) []packets.Packet {
 		}
 	}
 }
+
+// zzConnect runs the real connectWithTimeOut for one CONNECT packet with a stub
+// register (the session machinery is not part of the caller's subject).
+func zzConnect(srv *server, conn *packets.Connect) (*client, bool) {
+	c, _ := srv.newClient(&zzConn{})
+	c.register = func(connect *packets.Connect, client *client) (bool, error) { return false, nil }
+	c.unregister = func(*client) {}
+	c.in <- conn
+	ok := c.connectWithTimeOut()
+	return c, ok
+}
+
+func zzV5Connect(id string) *packets.Connect {
+	return &packets.Connect{Version: packets.Version5, FixHeader: &packets.FixHeader{PacketType: packets.CONNECT}, ProtocolName: []byte("MQTT"), ProtocolLevel: 5, ClientID: []byte(id), Properties: &packets.Properties{}}
+}
+
+func zzV3Connect(id string) *packets.Connect {
+	return &packets.Connect{Version: packets.Version311, FixHeader: &packets.FixHeader{PacketType: packets.CONNECT}, ProtocolName: []byte("MQTT"), ProtocolLevel: 4, ClientID: []byte(id)}
+}
